@@ -2,6 +2,7 @@ package props
 
 import (
 	"bytes"
+	"encoding/hex"
 	"encoding/json"
 	"fmt"
 	"reflect"
@@ -300,6 +301,7 @@ func runC12(w *vx.W) {
 	}
 	mixFamily(w, mixLen)
 	c10MixChains(w) // the same words as members of a chain: nothing may cross a file boundary
+	c12LocalSweep(w)
 	T := uint32(c12T)
 	var alpha []c12Op
 	for _, v := range []uint32{T, T + 1, T + 31, T + 32, T | 31, 0xFFFFFFFE, 0xFFFFFFFF, 0x10000000, 1000, 0x0FFFFFF0} {
@@ -456,4 +458,77 @@ func runC12(w *vx.W) {
 		w.State(h)
 	}
 	_ = reflect.TypeOf
+}
+
+// ---- zone-offset sweep: a local timestamp at every whole-second distance from the UTC reference between -15 h and
+// +15 h (every offset a real time zone can have, and every one between), 500 per file, both byte orders.
+// Used by C12 (the decoded local time must read l on the wall clock in a zone l-ref away from UTC) and by C01
+// (no panic).
+
+const sweepLo, sweepHi, sweepPer = -54000, 54000, 500
+
+func localSweepFile(start int, big bool) ([]byte, []int) {
+	const T = 1000000000
+	d := fitmodel.Def{Local: 1, Big: big, Global: 55, Fields: []fitmodel.FieldDef{{Num: 253, Size: 4, Base: fitmodel.Uint32}, {Num: 11, Size: 4, Base: fitmodel.Uint32}}}
+	o := d.Order()
+	recs := append(fitmodel.FileIdRecords(0, 32), d.Bytes())
+	var offs []int
+	for off := start; off < start+sweepPer && off <= sweepHi; off++ {
+		ref := uint32(T + (off-sweepLo)%977)
+		recs = append(recs, fitmodel.Data(1, fitmodel.Concat(fitmodel.PutUint(o, 4, uint64(ref)), fitmodel.PutUint(o, 4, uint64(int64(ref)+int64(off))))))
+		offs = append(offs, off)
+	}
+	return fitmodel.File(fitmodel.DefaultHeader, recs...), offs
+}
+
+// localSweepCheck decodes one sweep file; returns the panic text (C01's concern) and the first value mismatch (C12's).
+func localSweepCheck(start int, big bool) (stream []byte, panicText, mismatch string) {
+	const T = 1000000000
+	stream, offs := localSweepFile(start, big)
+	res := safeDecode(bytes.NewReader(stream))
+	if res.Panic != "" {
+		return stream, res.Panic, ""
+	}
+	if res.Err != nil {
+		return stream, "", "Decode rejects the stream: " + res.Err.Error()
+	}
+	ms := messagesOf(res.File, 55)
+	if len(ms) != len(offs) {
+		return stream, "", fmt.Sprintf("%d monitoring messages decoded, %d written", len(ms), len(offs))
+	}
+	for i, off := range offs {
+		ref := uint32(T + (off-sweepLo)%977)
+		l := uint32(int64(ref) + int64(off))
+		got := ms[i].FieldByName("LocalTimestamp").Interface().(time.Time)
+		want := localTime(true, ref, l)
+		if tdump(got) != tdump(want) {
+			return stream, "", fmt.Sprintf("local timestamp %d s away from its reference (big-endian=%v): decoded %s, model %s", off, big, tdump(got), tdump(want))
+		}
+		if ts := ms[i].FieldByName("Timestamp").Interface().(time.Time); !ts.Equal(fitTime(ref)) {
+			return stream, "", fmt.Sprintf("timestamp next to a local timestamp %d s away: decoded %v, model %v", off, ts, fitTime(ref))
+		}
+	}
+	return stream, "", ""
+}
+
+func c12LocalSweep(w *vx.W) {
+	var idx int64
+	for start := sweepLo; start <= sweepHi; start += sweepPer {
+		for _, big := range []bool{false, true} {
+			idx++
+			if !w.Mine(idx) {
+				continue
+			}
+			stream, pn, mm := localSweepCheck(start, big)
+			w.Eval(sweepPer)
+			w.Trace(1)
+			w.Fam("zone-offset-sweep", sweepPer)
+			if pn != "" {
+				mm = "panic: " + pn
+			}
+			if mm != "" {
+				w.Violation("zone-offset-sweep", mm, mixReplayT{Mix: true, Word: fmt.Sprintf("zone offsets %d.. (big-endian=%v)", start, big), Stream: hex.EncodeToString(stream)})
+			}
+		}
+	}
 }
